@@ -116,17 +116,6 @@ example : dropEq.any Drv.C01.droppedEquality = true := by decide
 
 /-! ### the proved fragment -/
 
-/-- Decidable description of the fragment, computed from the program with the model's own
-    functions: the execution order the code chooses (`topoOrder`) lists every head after the heads
-    it scans (hence no recursion), only heads are executed, heads have no stored facts, no
-    aggregates, and the last executed head is the head of the last rule. -/
-def inFragment (p : Program) (edb : DB) : Bool :=
-  depOrdered p (execOrder p) [] &&
-  (execOrder p).all (heads p).contains &&
-  (heads p).all (fun h => (edb.get h).isEmpty) &&
-  p.all (fun r => !r.hasAgg) &&
-  ((execOrder p).getLast? == some (queryRel p))
-
 /-- **C01 for non-recursive aggregate-free programs.** If the model engine (switches off, any
     partitioner, any emission order, any fuel) answers `A`, and the Spec's least model is `M`, then
     `A` is exactly the query relation of `M` — provided the clauses are evaluated faithfully
@@ -138,44 +127,16 @@ theorem C01_partial (p : Program) (edb : DB) (hash : Tuple → Nat) (ord : Strin
     (hrun : Engine.run allOff hash ord fuel p edb = .ok A acc)
     (hpm : pmEval fuel' p edb = some M) :
     MemEq A (M.get (queryRel p)) := by
-  simp only [inFragment, Bool.and_eq_true, List.all_eq_true, beq_iff_eq, Bool.not_eq_true',
-    List.isEmpty_iff] at hfrag
-  obtain ⟨⟨⟨⟨hdep, hheads⟩, hno⟩, hagg⟩, hlastq⟩ := hfrag
-  have hheads' : ∀ g, g ∈ execOrder p → g ∈ heads p := fun g hg => List.contains_iff_mem.1 (hheads g hg)
-  have hagg' : ∀ r, r ∈ p → r.hasAgg = false := hagg
-  -- the run is the loop over the execution order
-  have hloop : execLoop allOff hash ord fuel p edb (execOrder p) [] [] = .ok A acc := by
-    unfold Engine.run at hrun
-    split at hrun
-    · cases hrun
-    · split at hrun
-      · cases hrun
-      · split at hrun
-        · cases hrun
-        · exact hrun
-  obtain ⟨hframe, hfix, hlast⟩ := execLoop_spec hash ord fuel p edb hcf hagg' (execOrder p) [] [] [] A acc hdep hheads' hloop
-  -- both databases are supported models on the executed heads
-  have hS1 : Supported p (lkOf edb acc) (execOrder p) := by
-    intro g hg
-    obtain ⟨ts, hl, hev⟩ := hfix g hg
-    cases he : evalRules (lkOf edb acc) (clausesOf p g) with
-    | none => rw [he] at hev; cases hev
-    | some ts' =>
-      rw [he] at hev
-      refine ⟨ts', rfl, ?_⟩
-      rw [lkOf_of_lookup edb acc g ts hl]
-      exact MemEq.symm hev
+  obtain ⟨hS1, hnon1, hA⟩ := run_supported p edb hash ord fuel A acc hfrag hcf hrun
+  obtain ⟨hdep, hheads, hno, hagg, hlastq⟩ := inFragment_parts hfrag
   have hS2 : Supported p M.get (execOrder p) :=
-    supported_of_isFix (pmEval_isFix hpm) hno (execOrder p) hheads'
+    supported_of_isFix (pmEval_isFix hpm) hno (execOrder p) hheads
   have hnon : ∀ r, r ∉ heads p → lkOf edb acc r = M.get r := by
-    intro r hr
-    have hro : r ∉ execOrder p := fun hc => hr (hheads' r hc)
-    have : acc.lookup r = none := by rw [hframe r hro]; rfl
-    unfold lkOf; rw [this, pmEval_nonhead hpm r hr]
+    intro r hr; rw [hnon1 r hr, pmEval_nonhead hpm r hr]
   have hq : queryRel p ∈ execOrder p := List.mem_of_getLast? hlastq
-  have := supported_unique p hagg' (lkOf edb acc) M.get hnon (execOrder p) [] hdep hS1 hS2
+  have := supported_unique p hagg (lkOf edb acc) M.get hnon (execOrder p) [] hdep hS1 hS2
     (fun r hr => by cases hr) (queryRel p) hq
-  rw [lkOf_of_lookup edb acc _ A (hlast _ hlastq)] at this
+  rw [hA] at this
   exact this
 
 /-! ### a decidable sufficient condition for `ClauseFaithful` -/
